@@ -31,7 +31,10 @@ RULE = ('cases = (dim tuple, separable state): convex mixtures of 1..2D product 
         'handed over as complex128 and (real mixtures) float64 arrays, C-contiguous, Fortran-ordered and as strided views; the '
         'criteria are called in a different order for every state; work-buffer histories refill / update ONE array in place '
         '(separable -> entangled -> separable -> mixed in place) and edit earlier results before calling again; every shard runs '
-        'its dim tuples / SDP configurations a second time in another order.')
+        'its dim tuples / SDP configurations a second time in another order. Every third state is also asked through every '
+        'documented calling form (defaults passed explicitly, all positional in docstring order, dim as list / ndarray / numpy '
+        'ints, flags as 0/1 / numpy booleans); rank-deficient mixtures of 1..D-1 generic product vectors are a state kind of '
+        'their own.')
 EXHAUSTIVE = {'quick': False, 'thorough': False}
 EXHAUSTIVE_DOMAINS = {'quick': [], 'thorough': []}
 ASSUMPTIONS = [
@@ -58,13 +61,13 @@ DECIDING = ['is_ppt', 'is_generalized_ppt', 'check_reduction_witness', 'check_sw
             'labelled/is_ABk_symmetric_ext', 'labelled/get_ppt_boundary',
             'producer/rand_separable_dm', 'producer/SeparableDensityMatrix.forward', 'producer/harness-mixture',
             'producer/named-family', 'argument-unchanged', 'history/work-buffer', 'history/result-edited', 'input/float64',
-            'input/complex128/not-c-contiguous', 'order/second-pass-reversed', 'order/first-config-again']
+            'input/complex128/not-c-contiguous', 'order/second-pass-reversed', 'order/first-config-again', 'api-surface']
 
 ZERO = 1e-7
 BIP = [(2, 2), (2, 3), (3, 2), (3, 3), (2, 4)]
 MULTI = [(2, 2, 2), (2, 3, 2), (2, 2, 2, 2)]
-KINDS = ['random', 'random', 'random', 'random-real', 'few-terms', 'basis', 'repeated', 'near-parallel', 'near-parallel-pair',
-         'pure-product', 'tiny-weights', 'max-mixed', 'full-rank']
+KINDS = ['random', 'random', 'rank-deficient', 'random-real', 'few-terms', 'basis', 'repeated', 'near-parallel', 'near-parallel-pair',
+         'pure-product', 'tiny-weights', 'max-mixed', 'full-rank', 'rank-deficient']
 
 
 # =============================================================================== shards
@@ -502,6 +505,9 @@ def gen_cert(rng, dims, kind):
     if kind in ('random', 'random-real'):
         n = int(rng.integers(1, 2 * D + 1))
         return R.cert_from_terms(dims, rng.dirichlet(np.ones(n) * rng.choice([0.3, 1.0, 5.0])), [rv() for _ in range(n)])
+    if kind == 'rank-deficient':  # 1..D-1 GENERIC product vectors: on the boundary of the state space, singular partial transposes
+        n = int(rng.integers(1, D))
+        return R.cert_from_terms(dims, rng.dirichlet(np.ones(n)), [rv() for _ in range(n)])
     if kind == 'few-terms':
         n = int(rng.integers(1, 4))
         return R.cert_from_terms(dims, rng.dirichlet(np.ones(n)), [rv() for _ in range(n)])
@@ -623,8 +629,8 @@ def run(ctx, shard):
 
     def as_plain(x):
         """a criterion's answer as something comparable"""
-        if isinstance(x, tuple) and len(x) == 2 and isinstance(x[1], list):  # is_generalized_ppt(return_info=True)
-            return ('bool', bool(x[0]))
+        if isinstance(x, tuple) and len(x) == 2 and isinstance(x[1], (list, tuple)) and isinstance(x[0], (bool, np.bool_)):
+            return ('bool', bool(x[0]))  # is_generalized_ppt(return_info=True)
         if isinstance(x, tuple):
             return ('arr', np.array([np.asarray(t, dtype=np.float64) for t in x]))
         if isinstance(x, (bool, np.bool_)):
@@ -638,6 +644,59 @@ def run(ctx, shard):
         if a[0] == 'bool':
             return a[1] == b[1]
         return a[1].shape == b[1].shape and bool(np.all((np.abs(a[1] - b[1]) <= 1e-7 * (1 + np.abs(b[1]))) | (np.isnan(a[1]) & np.isnan(b[1]))))
+
+    def dim_forms(dims):
+        dims = tuple(int(x) for x in dims)
+        return [('list', list(dims)), ('ndarray', np.array(dims)), ('tuple of numpy ints', tuple(np.int64(x) for x in dims))]
+
+    def api_surface(rho, dims):
+        """the same question asked through every documented way of calling: defaults passed explicitly, everything positional in
+        docstring order, dim as list / ndarray / numpy ints. Every call is observed by the contracts (a labelled state must pass in
+        every form); in addition all forms must agree with the plain call."""
+        dims = tuple(int(x) for x in dims)
+        forms = dim_forms(dims)
+        dalt = forms[int(rng.integers(len(forms)))][1]
+        groups = [('is_ppt', lambda: E.is_ppt(rho, dims),
+                   [('explicit-default-differs', lambda: E.is_ppt(rho, dims, eps=-1e-7)),
+                    ('positional-call-differs-from-keyword-call', lambda: E.is_ppt(rho, dims, -1e-7)),
+                    ('explicit-default-differs', lambda: E.is_ppt(rho=rho, dim=dalt, eps=np.float64(-1e-7)))]),
+                  ('is_generalized_ppt', lambda: E.is_generalized_ppt(rho, dims),
+                   [('explicit-default-differs', lambda: E.is_generalized_ppt(rho, dims, return_info=False, zero_eps=1e-10)),
+                    ('positional-call-differs-from-keyword-call', lambda: E.is_generalized_ppt(rho, dalt, False, 1e-10)),
+                    ('explicit-default-differs', lambda: E.is_generalized_ppt(rho, dims, return_info=np.False_, zero_eps=np.float64(1e-10))),
+                    ('explicit-default-differs', lambda: E.is_generalized_ppt(rho, dims, return_info=1, zero_eps=1e-10))]),
+                  ('check_reduction_witness', lambda: E.check_reduction_witness(rho, dims),
+                   [('explicit-default-differs', lambda: E.check_reduction_witness(rho, dims, eps=-1e-7)),
+                    ('positional-call-differs-from-keyword-call', lambda: E.check_reduction_witness(rho, dalt, -1e-7))])]
+        if len(dims) == 2:
+            if dims[0] == dims[1]:
+                groups.append(('check_swap_witness', lambda: E.check_swap_witness(rho),
+                               [('explicit-default-differs', lambda: E.check_swap_witness(rho, eps=-1e-7)),
+                                ('positional-call-differs-from-keyword-call', lambda: E.check_swap_witness(rho, -1e-7))]))
+            groups.append(('get_negativity', lambda: E.get_negativity(rho, dims),
+                           [('positional-call-differs-from-keyword-call', lambda: E.get_negativity(rho=rho, dim=dalt))]))
+            if R.gellmann_norm(rho) > 1e-6:
+                nrm = R.gellmann_norm(rho)
+                groups.append(('get_ppt_boundary', lambda: E.get_ppt_boundary(rho, dims),
+                               [('explicit-default-differs', lambda: E.get_ppt_boundary(rho, dims, dm_norm=None, within_dm=True)),
+                                ('positional-call-differs-from-keyword-call', lambda: E.get_ppt_boundary(rho, dalt, None, True)),
+                                ('explicit-default-differs', lambda: E.get_ppt_boundary(rho, dims, dm_norm=nrm, within_dm=np.True_))]))
+        for fn, base, variants in groups:
+            out = [None]
+            with ctx.guard(fn):
+                out[0] = base()
+            if out[0] is None:
+                continue
+            for key, thunk in variants:
+                got = [None]
+                with ctx.guard(fn):
+                    got[0] = thunk()
+                if got[0] is None:
+                    continue
+                ctx.check(same_answer(out[0], got[0]), f'{fn}/{key}',
+                          f'{fn}: the same question asked through another documented calling form gets another answer',
+                          lambda: {'dims': list(dims), 'plain_call': repr(out[0])[:200], 'other_form': repr(got[0])[:200], 'rho': rho},
+                          point='api-surface')
 
     def history(dims):
         """work-buffer history on ONE array object: separable content -> entangled content -> other separable content -> in-place
@@ -747,6 +806,9 @@ def run(ctx, shard):
                     continue
                 real_in = kind in ('random-real', 'basis', 'max-mixed') and rng.random() < 0.5
                 drive_closed(rho, cert, real_in)
+                if it % 3 == 0:
+                    ctx.set_case(dict(reg.lookup(rho, dims) or {}, state_kind=kind, calling='api-surface variants'))
+                    api_surface(rho, dims)
                 if it % 40 == 3:
                     history(dims if len(dims) == 2 or it % 80 else R.coarsenings(dims)[0][0])
                 if it % 50 == 9:
@@ -818,6 +880,47 @@ def run(ctx, shard):
             # the closed-form criteria see the same states
             for r in states:
                 closed_suite(r, dims)
+        # API surface: the last configuration again, everything positional in docstring order (rho, dim, kext, use_ppt, use_boson,
+        # use_tqdm, return_info), flags as 0/1 and numpy booleans, kext as a numpy integer, dim as list / ndarray
+        if ctx.time_left() >= 8:
+            k, use_ppt, use_boson = shard['configs'][-1]
+            st = harness_state(dims, 'full-rank')[0]
+            if st is not None:
+                ctx.set_case({'dims': list(dims), 'kext': k, 'use_ppt': bool(use_ppt), 'use_boson': bool(use_boson), 'calling': 'positional / flag types'})
+                res = []
+                for args, kw in [((st, dims, k), dict(use_ppt=bool(use_ppt), use_boson=bool(use_boson))),
+                                 ((st, list(dims), np.int64(k), int(use_ppt), int(use_boson), False, False), {}),
+                                 ((st, np.array(dims), k), dict(use_ppt=np.bool_(use_ppt), use_boson=np.bool_(use_boson), use_tqdm=False, return_info=False))]:
+                    n0 = len(slog)
+                    got = [None]
+                    with ctx.guard('is_ABk_symmetric_ext'):
+                        got[0] = E.is_ABk_symmetric_ext(*args, **kw)
+                    res.append((got[0], [e['status'] for e in slog[n0:]]))
+                clean = all(r[0] is not None and r[1] == ['optimal'] for r in res)
+                if clean:
+                    ctx.check(bool(res[0][0]) == bool(res[1][0]), 'is_ABk_symmetric_ext/positional-call-differs-from-keyword-call',
+                              'is_ABk_symmetric_ext: positional call (docstring order) answers differently', {'answers': [repr(r[0]) for r in res]},
+                              point='api-surface')
+                    ctx.check(bool(res[0][0]) == bool(res[2][0]), 'is_ABk_symmetric_ext/explicit-default-differs',
+                              'is_ABk_symmetric_ext: numpy flag types / explicit defaults answer differently', {'answers': [repr(r[0]) for r in res]},
+                              point='api-surface')
+                else:
+                    ctx.inconclusive('sdp-status: api-surface comparison not clean')
+        # positional order of the two flags, on an (unlabelled) control where they matter: the two-qubit isotropic state p=1/2 has a
+        # bosonic 2-extension but no PPT 2-extension, so swapping use_ppt / use_boson in the signature changes the positional answers
+        if dims == (2, 2) and ctx.time_left() >= 8:
+            ctrl = T2.isotropic2(0.5)
+            ctx.set_case({'control': 'isotropic p=1/2, kext=2', 'calling': 'positional flags vs keyword flags'})
+            for fl in [(True, False), (False, True)]:
+                n0 = len(slog)
+                got = [None, None]
+                with ctx.guard('is_ABk_symmetric_ext'):
+                    got[0] = E.is_ABk_symmetric_ext(ctrl, dims, 2, use_ppt=fl[0], use_boson=fl[1])
+                    got[1] = E.is_ABk_symmetric_ext(ctrl, dims, 2, fl[0], fl[1])
+                if got[1] is not None and all(e['status'] in ('optimal', 'infeasible') for e in slog[n0:]):
+                    ctx.check(bool(got[0]) == bool(got[1]), 'is_ABk_symmetric_ext/positional-call-differs-from-keyword-call',
+                              'is_ABk_symmetric_ext: use_ppt / use_boson given positionally (docstring order) answer differently from keywords',
+                              {'use_ppt': fl[0], 'use_boson': fl[1], 'keyword': repr(got[0]), 'positional': repr(got[1])}, point='api-surface')
         # call order: the first configuration once more at the end of the process (after the other configurations were built)
         if ctx.time_left() >= 8 and len(shard['configs']) > 1:
             k, use_ppt, use_boson = shard['configs'][0]
